@@ -176,6 +176,16 @@ func (sc *scen) tweak(app *fingerproxy.VerifApp) {
 	sc.app = app
 	sc.hs = app.Server.HTTPServer
 	sc.hs.ConnState = sc.st.hook
+	if ms := sc.spec.SlowHookMs; ms > 0 {
+		// ordinary user configuration: a ConnState hook that takes a while for new connections;
+		// net/http calls it on its accepting goroutine, so hand-overs from the TLS side queue up
+		sc.hs.ConnState = func(c net.Conn, s http.ConnState) {
+			if s == http.StateNew {
+				time.Sleep(time.Duration(ms) * time.Millisecond)
+			}
+			sc.st.hook(c, s)
+		}
+	}
 	next := sc.hs.Handler
 	// "a handler that ignores its context": requests that ask for it are
 	// forwarded with a context that is not cancelled with the server's
@@ -632,6 +642,15 @@ func (sc *scen) run() (out *outcome) {
 	for i := 0; i < sp.AttDuring; i++ {
 		sc.launchAttempt("during", i, false, time.Duration(rng.Intn(300))*time.Microsecond, during)
 	}
+	for i := 0; i < sp.HandoverH1; i++ {
+		// HTTP/1.1 clients whose handshakes complete around the cancel instant (not judged as attempts:
+		// they are there to have hand-overs to the HTTP/1.1 server queued when the context is cancelled)
+		sc.launchAttempt("handover", 2*i, false, 0, nil)
+	}
+	if sp.HandoverH1 > 0 {
+		// let the handshakes complete: with the slow hook all but the first are now queued for hand-over
+		time.Sleep(time.Duration(25+2*sp.HandoverH1) * time.Millisecond)
+	}
 	if sp.AttPre > 0 {
 		time.Sleep(time.Duration(rng.Intn(1500)) * time.Microsecond)
 	}
@@ -748,6 +767,10 @@ func (sc *scen) run() (out *outcome) {
 	select {
 	case <-sc.returned:
 	case <-time.After(time.Until(t0.Add(bound))):
+	}
+	select {
+	case <-sc.returned: // looked at alone: both cases above may have been ready
+	default:
 		late := "never (waited 6 s more)"
 		select {
 		case <-sc.returned:
